@@ -86,7 +86,7 @@ func conc(args []string) {
 	}
 	events := make([]*TraceEvent, len(sets))
 	for i, v := range sets {
-		events[i] = &TraceEvent{ID: *base + i, Mods: v.Mods, OK: unfiltered[i].OK, Dump: unfiltered[i].Dump, Feats: [][]string{}, Filtered: []FilteredDump{}}
+		events[i] = &TraceEvent{ID: *base + i, Mods: v.Mods, OK: unfiltered[i].OK, Dump: unfiltered[i].Dump, Feats: [][]string{}, FSrc: scm.NamesSrc(v.Feats).Norm(), Filtered: []FilteredDump{}}
 		if !unfiltered[i].OK {
 			events[i].Dump = emptyTree
 		}
